@@ -48,7 +48,33 @@ $OMEGA 0.1
 $SIGMA 0.01
 $ESTIMATION METHOD=1 INTER
 """
-ALL_ACTS = ["X:ADDIIV", "S:FO", "S:PER", "S:TR", "S:LAG", "S:ZOE", "S:MM", "X:COVLIN", "X:COVCAT", "X:COVPW", "X:IOV", "X:BOXCOX",
+FLAG = """$PROBLEM covariate flag with explicit zero branch
+$DATA @DATA@ IGNORE=@
+$INPUT ID TIME AMT WGT APGR DV FA1 FA2
+$PRED
+TVCL = THETA(1)*WGT
+TVV = THETA(2)*WGT
+SC = THETA(3)
+FLAG = 1
+IF (APGR.LT.5) THEN
+    FLAG = THETA(4)
+ELSE
+    FLAG = 0
+END IF
+CL = TVCL*EXP(ETA(1))
+V = TVV*EXP(ETA(2))*(1 + FLAG)
+F = 25/V*EXP(-CL/V*TIME)*SC
+Y = F + F*EPS(1)
+$THETA (0,0.005) ; POP_CL
+$THETA (0,1.3) ; POP_V
+$THETA 2 FIX ; SCALE
+$THETA (0,0.3) ; COVAPGR
+$OMEGA 0.03
+$OMEGA 0.02
+$SIGMA 0.01
+$ESTIMATION METHOD=1 INTERACTION
+"""
+ALL_ACTS = ["D:FIXVAR1", "X:ADDIIV", "S:FO", "S:PER", "S:TR", "S:LAG", "S:ZOE", "S:MM", "X:COVLIN", "X:COVCAT", "X:COVPW", "X:IOV", "X:BOXCOX",
             "X:COMB", "X:IIVRUV", "X:POWER", "X:TV", "D:FIXTH", "D:ZEROOM", "P:MU", "P:DECL", "P:CLEAN", "P:SIMP", "P:GREEK",
             "P:RENAME", "P:SOLVE", "P:GENERIC", "P:NONMEM", "P:UNLOAD", "P:LOAD", "P:UNUSED", "P:JOINT", "P:SPLIT", "P:FIXED",
             "P:NONRANDOM", "O:OBS", "O:IPRED", "O:PRED", "O:ETAGRAD", "O:EPSGRAD", "O:EVAL"]
@@ -64,6 +90,12 @@ def start_model(name):
             _MODELS[name] = load_example_model("pheno")
         elif name == "linear":
             _MODELS[name] = load_example_model("pheno_linear")
+        elif name == "flag":
+            from pharmpy.modeling import read_model_from_string
+
+            m = read_model_from_string(FLAG.replace("@DATA@", str(core.REPO / "tests/testdata/nonmem/pheno.dta")))
+            m.dataset
+            _MODELS[name] = m
         elif name == "pred":
             from pharmpy.modeling import read_model_from_string
 
@@ -189,11 +221,26 @@ def branch_overrides(model, limit=2):
     return out[: 2 * limit]
 
 
-def fp_event(m1, m2, salts, ren=None, amounts_from_after=False):
+def reread_of(m2):
+    """the model read back from the code generated for m2, if it can be compared by name; else None"""
+    try:
+        if "nonmem" not in type(m2).__module__ or m2.statements.ode_system is not None:
+            return None
+        from pharmpy.modeling import read_model_from_string
+
+        r = read_model_from_string(m2.code)
+        if set(r.parameters.names) != set(m2.parameters.names) or set(r.random_variables.names) != set(m2.random_variables.names):
+            return None
+        return r
+    except Exception:  # noqa: BLE001
+        return None
+
+
+def fp_event(m1, m2, salts, ren=None, amounts_from_after=False, m3=None):
     """before / after fingerprints at the same points (the point is carried through the renaming); besides the
     generic points, points on both sides of every conditional statement of the before-model"""
     ren = ren or {}
-    before, after = [], []
+    before, after, third = [], [], []
     points = [(salt, {}) for salt in salts] + [(salts[0], ov) for ov in branch_overrides(m1)]
     for k, (salt, ov) in enumerate(points):
         env1 = probe(m1, salt)
@@ -205,6 +252,10 @@ def fp_event(m1, m2, salts, ren=None, amounts_from_after=False):
         f1, f2 = flat(m1, {**env2, **env1}), flat(m2, env2)
         before += [[f"{k}|{n}", x] for n, x in f1.items()]
         after += [[f"{k}|{n}", x] for n, x in f2.items()]
+        if m3 is not None:
+            third += [[f"{k}|{n}", x] for n, x in flat(m3, env2).items()]
+    if m3 is not None:
+        return before, after, len(points), third
     return before, after, len(points)
 
 
@@ -250,6 +301,10 @@ def apply_other(name, tok, m):
     if tok == "D:FIXTH":
         th = [p.name for p in pm.get_thetas(m)]
         return pm.fix_parameters(m, [th[1] if len(th) > 1 else th[0]])
+    if tok == "D:FIXVAR1":
+        om = [p.name for p in pm.get_omegas(m) if not p.fix]
+        sg = [p.name for p in pm.get_sigmas(m) if not p.fix]
+        return pm.fix_parameters_to(m, {n: 1 for n in om[:1] + sg[:1]})
     if tok == "D:ZEROOM":
         om = [p.name for p in pm.get_omegas(m)]
         return pm.fix_parameters_to(m, {om[-1]: 0})
@@ -315,7 +370,10 @@ def do_preserving(name, tok, m1, cx):
     else:
         raise KeyError(tok)
     ren = declared_renaming(m1, m2, given, positional=(tok == "P:GREEK"))
-    before, after, npts = fp_event(m1, m2, salts, ren)
+    m3 = reread_of(m2) if not ren else None
+    got = fp_event(m1, m2, salts, ren, m3=m3)
+    before, after, npts = got[:3]
+    aftercode = got[3] if m3 is not None else []
     req = []
     y = yname(m1)
     for k in range(npts):
@@ -323,7 +381,7 @@ def do_preserving(name, tok, m1, cx):
     req += [n for n, _ in before if n.split("|", 1)[1].split(":")[0] in ("flow", "lag", "bio", "dose", "dur", "rate", "col")]
     req += [n for n, _ in before if n.split("|", 1)[1].startswith("par:") and n.split("|", 1)[1][4:] in m1.parameters.names]
     return m2, {"before": before, "after": after, "ren": [[f"{k}|{pre}{a}", f"{k}|{pre}{b}"] for a, b in ren.items() for k in range(npts) for pre in ("", "par:")],
-                "req": req, "pairs": pairs}
+                "req": req, "pairs": pairs, "aftercode": aftercode}
 
 
 def simplify_event(m1, cx):
@@ -722,6 +780,7 @@ def exec_history(arg):
                 problems.append(("internal", rec))
             break
         ev["act"] = tok
+        ev.setdefault("aftercode", [])
         events.append(ev)
         if tok == "P:LOAD" and list(m2.datainfo.names) != list(start_model(name).datainfo.names):
             break  # judged at this step (the columns the statements read are gone); later steps would only repeat it
@@ -747,19 +806,19 @@ INVS = ["TypeOK", "VersionCounts", "OneRenaming", "NoOdeNoStructure"]
 def tlc_explore(tier, seed, v):
     tmp = core.scratch("c07cfg")
     mh = 3 if tier == "quick" else 4
-    cfg = _acts_cfg(tmp, "explore.cfg", ["pheno", "mox2", "linear", "pred"], mh, ALL_ACTS, INVS + ["EmitCase"])
+    cfg = _acts_cfg(tmp, "explore.cfg", ["pheno", "mox2", "linear", "pred", "flag"], mh, ALL_ACTS, INVS + ["EmitCase"])
     if tier == "quick":
         res = core.run_tlc(SPEC / "Preserve.tla", cfg, workers=8, timeout=1500, coverage=False)
     else:
         # depth 4 exhaustively is 10^6 histories: the theorems are checked exhaustively without emission,
         # the histories of length 4 come from random walks of the same machine
-        cfg0 = _acts_cfg(tmp, "theorems.cfg", ["pheno", "mox2", "linear", "pred"], 4, ALL_ACTS, INVS)
+        cfg0 = _acts_cfg(tmp, "theorems.cfg", ["pheno", "mox2", "linear", "pred", "flag"], 4, ALL_ACTS, INVS)
         res0 = core.run_tlc(SPEC / "Preserve.tla", cfg0, workers=16, timeout=2400, coverage=False)
         core.require_ok(res0, "Preserve.tla depth 4")
         if res0.violated:
             raise core.MachineryError(f"Preserve.tla: {res0.violated} violated")
         v.add_coverage(states=res0.distinct, transitions=res0.generated)
-        cfg3 = _acts_cfg(tmp, "explore3.cfg", ["pheno", "mox2", "linear", "pred"], 3, ALL_ACTS, INVS + ["EmitCase"])
+        cfg3 = _acts_cfg(tmp, "explore3.cfg", ["pheno", "mox2", "linear", "pred", "flag"], 3, ALL_ACTS, INVS + ["EmitCase"])
         res = core.run_tlc(SPEC / "Preserve.tla", cfg3, workers=8, timeout=1500, coverage=False)
         sim = core.run_tlc(SPEC / "Preserve.tla", cfg, workers=4, timeout=1500, coverage=False, simulate="num=2500", depth=6, seed=seed)
         core.require_ok(sim, "Preserve.tla simulate")
@@ -854,7 +913,8 @@ def select(cases, tier, seed):
 def _warm_up():
     for name, h in [("pheno", ["S:FO", "X:COVCAT", "P:CLEAN"]), ("pheno", ["X:IOV", "P:MU"]), ("pheno", ["P:SOLVE", "O:ETAGRAD"]),
                     ("mox2", ["X:COMB", "P:GREEK"]), ("linear", ["P:GENERIC", "O:EVAL"]), ("pheno", ["P:JOINT", "P:SIMP"]),
-                    ("pred", ["P:MU", "X:ADDIIV", "P:MU"]), ("pred", ["X:ADDIIV", "O:EVAL"])]:
+                    ("pred", ["P:MU", "X:ADDIIV", "P:MU"]), ("pred", ["X:ADDIIV", "O:EVAL"]), ("flag", ["P:FIXED"]),
+                    ("pheno", ["D:FIXVAR1", "P:NONRANDOM"])]:
         exec_history(({"model": name, "hist": h}, 1))
 
 
@@ -879,7 +939,7 @@ def main(tier: str, seed: int) -> int:
     core.use_repo()
     import pharmpy.modeling  # noqa: F401
 
-    for n in ("pheno", "mox2", "linear", "pred"):
+    for n in ("pheno", "mox2", "linear", "pred", "flag"):
         start_model(n)
     _warm_up()
     th.join()
@@ -922,10 +982,11 @@ def main(tier: str, seed: int) -> int:
             if tok[0] not in "PO":
                 continue
             st = stats.setdefault(tok, {"ok": 0, "bad": 0, "skip": 0})
-            vals = [ver["fp"], ver["req"], ver["obs"]]
+            vals = [ver["fp"], ver["req"], ver["obs"], ver.get("code", "none")]
             st["bad" if "bad" in vals else "ok" if "ok" in vals else "skip"] += 1
             judged += "ok" in vals or "bad" in vals
-            for field, outcome in (("fp", "fingerprint_changed"), ("req", "observable_missing"), ("obs", "value_mismatch")):
+            for field, outcome in (("fp", "fingerprint_changed"), ("req", "observable_missing"), ("obs", "value_mismatch"),
+                                   ("code", "generated_code_changed")):
                 if ver[field] == "bad":
                     if _float_agrees(c, s, i, field):
                         v.notes.append(f"model_artefact: {c['model']} {c['hist'][: i + 1]} {field}")
@@ -953,10 +1014,10 @@ def _diff(ev, field):
     if field == "obs":
         return [p for p in ev["pairs"] if p[0] != p[1]][:4]
     ren = dict((a, b) for a, b in ev["ren"])
-    after = dict((n, x) for n, x in ev["after"])
+    after = dict((n, x) for n, x in (ev["aftercode"] if field == "code" else ev["after"]))
     for n, x in ev["before"]:
         n2 = ren.get(n, n)
-        if field == "fp" and n2 in after and after[n2] != x and x[1] > 0 and after[n2][1] > 0:
+        if field in ("fp", "code") and n2 in after and after[n2] != x and x[1] > 0 and after[n2][1] > 0:
             out.append([n, x, after[n2]])
     if field == "req":
         out = [r for r in ev["req"] if ren.get(r, r) not in after]
